@@ -196,6 +196,9 @@ def py_linecol(s, off):
     return pre.count('\n'), len(pre.split('\n')[-1])
 
 def confirm(c, nd, nr):
+    if c['key'] == 'c12:token-position':
+        from . import pubconfirm as PC
+        return PC.confirm_token_position(c['witness']['expr'], nd)
     obs = {'dev': nd.request(c['request']), 'release': nr.request(c['request'])}
     if c['key'].endswith('panic'): return any(o.get('kind') in ('panic', 'abort', 'hang') for o in obs.values()), obs
     if c['key'] == 'c12:rendering':
